@@ -6,6 +6,7 @@ import ExecnetVerif.Proofs.Net.Got
 import ExecnetVerif.Proofs.Net.Cb
 import ExecnetVerif.Proofs.Net.Isolation
 import ExecnetVerif.Generated.Tables
+import ExecnetVerif.Props.NetGranularity
 namespace ExecnetVerif
 open Net
 
